@@ -539,13 +539,19 @@ func (ss *SpecSet) ParseSpecText(file string, lines []string, lineNos []int) err
 			ss.Defaults = append(ss.Defaults, curDef)
 		case "spec":
 			w2, r2 := splitWord(rest)
+			rec := false
+			if w2 == "rec" {
+				rec = true
+				w2, r2 = splitWord(r2)
+			}
 			if w2 != "func" {
-				return fail(fmt.Errorf("expected 'spec func'"))
+				return fail(fmt.Errorf("expected 'spec func' or 'spec rec func'"))
 			}
 			sf, err := parseSpecFunc(r2)
 			if err != nil {
 				return fail(err)
 			}
+			sf.Rec = rec
 			ss.Funcs[sf.Name] = sf
 			cur, curDef = nil, nil
 		case "axiom":
